@@ -3,8 +3,8 @@ from __future__ import annotations
 
 from .langs import LANGS, lexer_for
 
-PY_ALPHABET = ["def", "f", "(", ")", ":", "\n", "    ", "x", "=", "1", "async", "class", "# c\n", "'s'", "\\\n", ","]
-BRACE_ALPHABET = ["int", "f", "(", ")", "{", "}", ";", "\n", "=", "=>", "function", "const", "async", "// c\n", "\"s\"", "throws"]
+PY_ALPHABET = ["def", "f", "(", ")", ":", "\n", "    ", "x", "=", "1", "async", "class", "# c\n", "'s'", "\\\n", ",", "->", "lambda", "@"]
+BRACE_ALPHABET = ["int", "f", "(", ")", "{", "}", ";", "\n", "=", "=>", "function", "const", "async", "// c\n", "\"s\"", "throws", ":", "let", "var"]
 
 EXTRA_BASES = {
     "Python": [
